@@ -338,6 +338,11 @@ pub fn run(input: &[u8], scn: &str, rec: &mut Rec) {
             p.module.producers.add_processed_by("wv-tool", "1.0");
             p.module.producers.add_language("wv-lang", "7");
             p.module.producers.add_sdk("wv-sdk", "0.1");
+            // a raw section under a name walrus reserves for DWARF: such names are never written from the custom
+            // section arena (what is written under them comes from the debug data, if DWARF generation is on)
+            if wv_gen::rng::fnv64(input) % 2 == 0 {
+                p.module.customs.add(walrus::RawCustomSection { name: ".debug_wv_added".into(), data: vec![1, 2, 3] });
+            }
         });
         if let Err(pan) = r {
             rec.push_s("panic.addimp", &pan);
